@@ -113,14 +113,15 @@ namespace bloch::update {
             }
         }
 
-        void saveCache(const UpdateCache& cache) {
+        // Returns whether the cache reached the file.
+        bool saveCache(const UpdateCache& cache) {
             const auto path = cacheFilePath();
             std::error_code ec;
             std::filesystem::create_directories(path.parent_path(), ec);
 
             std::ofstream out(path, std::ios::trunc);
             if (!out)
-                return;
+                return false;
 
             const auto toSeconds = [](Clock::time_point tp) {
                 return std::chrono::duration_cast<std::chrono::seconds>(tp.time_since_epoch())
@@ -130,6 +131,8 @@ namespace bloch::update {
             out << toSeconds(cache.lastChecked) << "\n";
             out << cache.latestVersion << "\n";
             out << toSeconds(cache.lastNotified) << "\n";
+            out.flush();
+            return static_cast<bool>(out);
         }
 
         SemVer parseSemVer(const std::string& version) {
@@ -284,8 +287,11 @@ namespace bloch::update {
                    std::getenv("BLOCH_OFFLINE");
         }
 
-        bool maybePrintNotice(const std::string& latestVersion, const std::string& currentVersion,
-                              Clock::time_point now, UpdateCache& cache) {
+        // Whether a notice is due; if so the cache is marked as notified now. The notice itself
+        // is printed only once that mark has been written (see checkForUpdatesIfDue): a notice
+        // that cannot be recorded would be repeated on every run.
+        bool noticeDue(const std::string& latestVersion, const std::string& currentVersion,
+                       Clock::time_point now, UpdateCache& cache) {
             if (latestVersion.empty())
                 return false;
             if (!hasExpired(cache.lastNotified, now))
@@ -298,13 +304,16 @@ namespace bloch::update {
             if (compareSemVer(current, latest) >= 0)
                 return false;
 
-            const auto label = changeLabel(current, latest);
-            std::cout << "There is a new " << label << " version of Bloch, " << latestVersion
-                      << ". You currently have " << currentVersion
-                      << ". To install the latest run bloch --update." << std::endl;
             cache.lastNotified = now;
             cache.latestVersion = latestVersion;
             return true;
+        }
+
+        void printNotice(const std::string& latestVersion, const std::string& currentVersion) {
+            const auto label = changeLabel(parseSemVer(currentVersion), parseSemVer(latestVersion));
+            std::cout << "There is a new " << label << " version of Bloch, " << latestVersion
+                      << ". You currently have " << currentVersion
+                      << ". To install the latest run bloch --update." << std::endl;
         }
 
         std::filesystem::path resolveInstallPath(const std::string& argv0) {
@@ -619,16 +628,16 @@ namespace bloch::update {
 
         if (cached && hasExpired(cache.lastChecked, now) == false) {
             if (!cache.latestVersion.empty() &&
-                maybePrintNotice(cache.latestVersion, currentVersion, now, cache)) {
-                saveCache(cache);
+                noticeDue(cache.latestVersion, currentVersion, now, cache) && saveCache(cache)) {
+                printNotice(cache.latestVersion, currentVersion);
             }
             return;
         }
 
         // Use any cached version info before hitting the network.
         if (cached && !cache.latestVersion.empty()) {
-            if (maybePrintNotice(cache.latestVersion, currentVersion, now, cache))
-                saveCache(cache);
+            if (noticeDue(cache.latestVersion, currentVersion, now, cache) && saveCache(cache))
+                printNotice(cache.latestVersion, currentVersion);
         }
 
         std::string err;
@@ -638,8 +647,9 @@ namespace bloch::update {
 
         cache.latestVersion = *latest;
         cache.lastChecked = now;
-        maybePrintNotice(*latest, currentVersion, now, cache);
-        saveCache(cache);
+        const bool due = noticeDue(*latest, currentVersion, now, cache);
+        if (saveCache(cache) && due)
+            printNotice(*latest, currentVersion);
     }
 
     bool performSelfUpdate(const std::string& currentVersion, const std::string& argv0) {
